@@ -8,6 +8,9 @@ JDG  IOQueueTrace: every step must be a step of IOQueueSpec, all observables
      after every step.
 pty  c16-pty (with C17's hooks): real terminal object on a pseudo-terminal,
      PollTrace judge (added by checks/pty.py when available).
+rnd  c16-render: run_render on a pty with a stranded payload so that the frame
+     drop policy fires; FrameStream judge: synchronized-update markers of the
+     received stream alternate (frames arrive whole or not at all).
 """
 import json
 from . import lib
@@ -61,6 +64,33 @@ def run(ctx):
     npty = 0
     if pty is not None and not ctx.replay:
         npty = pty.sessions(ctx, "C16")
+    # ---- the render loop on a stalled pty: frames reach the tty whole or not at all (FrameStream.tla)
+    nrender = 0
+    if not ctx.replay:
+        nr = 16 if q else 200
+        jobs = []
+        for i, part in enumerate(lib.shard([{"id": i, "seed": ctx.seed * 1000 + i} for i in range(nr)], 8)):
+            ip = ctx.path("render", f"in.{i}.ndjson")
+            lib.write_ndjson(ip, part)
+            jobs.append((["isolate", "c16-render"], ip, ctx.path("render", f"rec.{i}.ndjson")))
+        lib.harness_parallel(jobs, timeout=3000)
+        rrecs = []
+        for _, _, f in jobs:
+            for r in lib.read_ndjson(f):
+                if "outcome" in r:
+                    r = {"id": r["id"], "seed": r["input"]["seed"], "frames": 0, "markers": [], "drops": 0, "payload": 0, "payload_seen": 0, "panic": r["outcome"]}
+                rrecs.append(r)
+        rv, _ = lib.judge_sharded(ctx, "io/FrameStream", None, rrecs, "render", nshards=4)
+        rby = {r["id"]: r for r in rrecs}
+        for v in rv:
+            r = rby[v["id"]]
+            ctx.fail({"why": "render: " + v["why"]}, f"run_render on a stalled pty, seed={r['seed']}: {v['why']}; {r['frames']} frames, {r['drops']} drops, markers {''.join('hl'[1 - m] for m in r['markers'])[:120]} {r['panic']}", {"render_session": {"seed": r["seed"]}})
+        nrender = len(rrecs)
+        if rrecs and not any(r["drops"] for r in rrecs):
+            raise lib.ToolError("vacuous render sessions: the drop policy never fired")
+        ctx.cov["render_sessions"] = nrender
+        ctx.cov["render_sessions_with_drops"] = sum(1 for r in rrecs if r["drops"])
+        ctx.cov["render_frames_on_the_wire"] = sum(sum(r["markers"]) for r in rrecs)
     return lib.finish(ctx, "model_checking", cov_of(ctx, recs, npty),
                       ["payload bytes are numbered so that every byte in flight is distinguishable",
                        "consume(n) is driven within the BufRead contract (n <= front slice); larger n is covered by the model only"])
@@ -71,9 +101,11 @@ def cov_of(ctx, recs, npty):
     shapes = {tuple(o["t"] for o in r["ops"]) for r in recs}
     return {
         "states": max(1, sum(m["states"] for m in ctx.mc)), "transitions": max(1, sum(m["transitions"] for m in ctx.mc)),
-        "traces_validated_against_impl": len(recs) + npty,
+        "traces_validated_against_impl": len(recs) + npty + ctx.cov.get("render_sessions", 0),
         "samples": [[(o["t"], o["n"], o["len"], o["count"]) for o in r["ops"]] for r in recs[:2]] or ["replay"],
         "model_runs": ctx.mc, "queue_operations_judged": ops, "pty_sessions_judged": npty,
+        "render_sessions": ctx.cov.get("render_sessions", 0), "render_sessions_with_drops": ctx.cov.get("render_sessions_with_drops", 0),
+        "render_frames_on_the_wire": ctx.cov.get("render_frames_on_the_wire", 0),
         "evaluations": max(1, ops), "distinct_nontrivial": max(2, len(shapes)),
         "rule": "queue: seeded scripts of write/flush/read/consume/drop, every observable judged after every step; distinct = distinct operation-kind sequences",
     }
